@@ -552,12 +552,15 @@ class _World:
                 out.append(getattr(node, "id", 0))
                 out.append(id(node.rdatasets))
                 for rds in node.rdatasets:
+                    # (a breach may have put a foreign object here: never assume the attributes exist)
                     out.append(id(rds))
-                    out.append(rds.ttl)
-                    out.append(rds.rdtype)
-                    out.append(rds.covers)
-                    out.append(id(rds.items))
-                    out.extend(id(rd) for rd in rds.items)
+                    out.append(getattr(rds, "ttl", None))
+                    out.append(getattr(rds, "rdtype", None))
+                    out.append(getattr(rds, "covers", None))
+                    items = getattr(rds, "items", None)
+                    out.append(id(items))
+                    if isinstance(items, dict) or hasattr(items, "__iter__"):
+                        out.extend(id(rd) for rd in items)
             d = getattr(v, "delegations", None)
             if d is not None:
                 out.extend(id(x) for x in d)
